@@ -33,58 +33,96 @@ def run(ctx):
     # the number that selects the tuple layout is the number of VALUE columns of
     # the aggregate cpu line: the label ("cpu") is not counted
     f0 = repo.func(pm, "set_scputimes_ntuple")
-    vl0 = [st.targets[0].id for st in ast.walk(f0.node) if isinstance(st, ast.Assign)
-           and isinstance(st.value, ast.Call) and dotted(st.value.func) == "len"
-           and isinstance(st.targets[0], ast.Name)]
-    ctx.require(vl0, "set_scputimes_ntuple: length of the cpu line no longer taken")
-    I0 = Interp(repo, An)
-    I0.call_function(f0, [("param", "procfs_path")])
-    lt = I0.last_env.get(vl0[0])
-    okc, whyc = False, f"the count is `{pretty(lt)[:90]}`"
-    if lt and lt[0] == "call" and lt[1] == "len":
-        a = lt[2]
-        off = 0
-        while a and a[0] == "slice":
-            lo, hi, st_ = a[2], a[3], a[4]
-            if lo[0] == "const" and hi == ("const", None) and st_ in (("const", None), ("const", 1)):
-                off += lo[1] or 0
-                a = a[1]
-            else:
-                break
-        if a and a[0] == "split" and a[2] == ("const", None) and a[1][0] == "line" \
-                and "stat" in pretty(a[1][1]) and a[1][2] == 0:
-            if off == 1:
-                okc = True
-            else:
-                whyc = (f"{off} leading token(s) are dropped before counting; the line is "
-                        f"`cpu v1 v2 ...` so exactly the label must be dropped (with the "
-                        f"label counted a 7-column kernel gets a `steal` field read from "
-                        f"nothing, a 9-column one a `guest_nice` field ...)")
-    if okc:
-        ctx.ok("C07.R1", "column-count", sample="len(first line .split()[1:])")
+    # decided by EVALUATING the function on a first line of /proc/stat with n value
+    # columns, n = 4..13 (the spelling of the thresholds does not matter); if it uses
+    # constructs outside the evaluated subset, by the symbolic route below
+    from ..core import minieval as ME
+
+    def layout(n):
+        line = b"cpu  " + b" ".join(b"%d" % (100 + i) for i in range(n)) + b"\n"
+        nat = {"open_binary": lambda p_, **k: ME.TextFile([line, b"cpu0 1 2 3\n"]),
+               "open_text": lambda p_, **k: ME.TextFile([line.decode(), "cpu0 1 2 3\n"]),
+               "namedtuple": lambda a, b: ("nt", a, tuple(b.split() if isinstance(b, str) else b)),
+               "collections.namedtuple": lambda a, b: ("nt", a, tuple(b)),
+               "debug": lambda *a: None}
+        _, env_ = ME.run_function(f0.node, ["/proc"], natives=nat)
+        v_ = env_.get("scputimes")
+        return list(v_[2]) if isinstance(v_, tuple) and v_ and v_[0] == "nt" else None
+    evaluated = {}
+    # the function can depend on n only through comparisons/slices with the integer
+    # constants it contains: evaluating up to 3 past the largest of them covers every n
+    kmax = max([c_.value for c_ in ast.walk(f0.node) if isinstance(c_, ast.Constant)
+                and isinstance(c_.value, int) and not isinstance(c_.value, bool)] + [10])
+    try:
+        for n_ in range(4, max(14, kmax + 4)):
+            evaluated[n_] = layout(n_)
+    except (ME.Outside, ME.Raised):
+        evaluated = None
+    if evaluated is not None and all(v is not None for v in evaluated.values()):
+        wrong = {n_: v for n_, v in evaluated.items()
+                 if v != O.CPU_FIELDS[:min(max(n_, 7), 10)]}
+        if not wrong:
+            ctx.ok("C07.R1", "column-count", sample="evaluated for 4..13 value columns: the tuple "
+                   "has min(max(n, 7), 10) fields in kernel order")
+        else:
+            n_, v = sorted(wrong.items())[0]
+            ctx.fail("C07.R1", "column-count", f0.file, f0.node.lineno, f0.qual,
+                     f"the tuple layout is not selected by the number of value columns of the "
+                     f"aggregate cpu line: with {n_} columns (`cpu v1 .. v{n_}`) the fields are "
+                     f"{v}, expected {O.CPU_FIELDS[:min(max(n_, 7), 10)]}")
     else:
-        ctx.fail("C07.R1", "column-count", f0.file, f0.node.lineno, f0.qual,
-                 "the tuple layout is not selected by the number of value columns of the "
-                 "aggregate cpu line: " + whyc)
+        evaluated = None
+        vl0 = [st.targets[0].id for st in ast.walk(f0.node) if isinstance(st, ast.Assign)
+               and isinstance(st.value, ast.Call) and dotted(st.value.func) == "len"
+               and isinstance(st.targets[0], ast.Name)]
+        ctx.require(vl0, "set_scputimes_ntuple: length of the cpu line no longer taken")
+        I0 = Interp(repo, An)
+        I0.call_function(f0, [("param", "procfs_path")])
+        lt = I0.last_env.get(vl0[0])
+        okc, whyc = False, f"the count is `{pretty(lt)[:90]}`"
+        if lt and lt[0] == "call" and lt[1] == "len":
+            a = lt[2]
+            off = 0
+            while a and a[0] == "slice":
+                lo, hi, st_ = a[2], a[3], a[4]
+                if lo[0] == "const" and hi == ("const", None) and st_ in (("const", None), ("const", 1)):
+                    off += lo[1] or 0
+                    a = a[1]
+                else:
+                    break
+            if a and a[0] == "split" and a[2] == ("const", None) and a[1][0] == "line" \
+                    and "stat" in pretty(a[1][1]) and a[1][2] == 0:
+                if off == 1:
+                    okc = True
+                else:
+                    whyc = (f"{off} leading token(s) are dropped before counting; the line is "
+                            f"`cpu v1 v2 ...` so exactly the label must be dropped")
+        if okc:
+            ctx.ok("C07.R1", "column-count", sample="len(first line .split()[1:])")
+        else:
+            ctx.fail("C07.R1", "column-count", f0.file, f0.node.lineno, f0.qual,
+                     "the tuple layout is not selected by the number of value columns of the "
+                     "aggregate cpu line: " + whyc)
     for n in (7, 8, 9, 10):
         want = O.CPU_FIELDS[:n]
-        I = Interp(repo, An)
-        I.force["vlen"] = ("const", n)
-        f = repo.func(pm, "set_scputimes_ntuple")
-        # the local holding the length of the value list: found by def-use
-        vl = [st.targets[0].id for st in ast.walk(f.node) if isinstance(st, ast.Assign)
-              and isinstance(st.value, ast.Call) and dotted(st.value.func) == "len"
-              and isinstance(st.targets[0], ast.Name)]
-        ctx.require(vl, "set_scputimes_ntuple: length of the cpu line no longer taken")
-        I.force = {vl[0]: ("const", n)}
-        I.call_function(f, [("param", "procfs_path")])
-        env = I.last_env
-        # the list handed to namedtuple('scputimes', <list>)
-        ntc = [c for c in calls_in(f.node) if dotted(c.func) in ("namedtuple",
-                                                                  "collections.namedtuple")]
-        ctx.require(ntc and len(ntc[0].args) == 2, "set_scputimes_ntuple: namedtuple() call vanished")
-        lst = env.get(dotted(ntc[0].args[1]))
-        got = [x[1] for x in lst[1:]] if lst and lst[0] == "list" else None
+        f = f0
+        if evaluated is not None:
+            got = evaluated[n]
+        else:
+            I = Interp(repo, An)
+            vl = [st.targets[0].id for st in ast.walk(f.node) if isinstance(st, ast.Assign)
+                  and isinstance(st.value, ast.Call) and dotted(st.value.func) == "len"
+                  and isinstance(st.targets[0], ast.Name)]
+            ctx.require(vl, "set_scputimes_ntuple: length of the cpu line no longer taken")
+            I.force = {vl[0]: ("const", n)}
+            I.call_function(f, [("param", "procfs_path")])
+            env = I.last_env
+            ntc = [c for c in calls_in(f.node) if dotted(c.func) in ("namedtuple",
+                                                                      "collections.namedtuple")]
+            ctx.require(ntc and len(ntc[0].args) == 2,
+                        "set_scputimes_ntuple: namedtuple() call vanished")
+            lst = env.get(dotted(ntc[0].args[1]))
+            got = [x[1] for x in lst[1:]] if lst and lst[0] == "list" else None
         key = f"fields:n={n}"
         if got == want:
             ctx.ok("C07.R1", key, sample={"kernel_fields": n, "tuple": got})
@@ -92,8 +130,6 @@ def run(ctx):
             ctx.fail("C07.R1", key, f.file, f.node.lineno, f.qual,
                      f"with {n} kernel CPU columns the tuple fields are {got}; kernel "
                      f"order is {want}")
-        # number of values consumed comes from the cpu line without its label
-        vals = env.get("values")
         I2 = Interp(repo, An)
         I2.namedtuples[(pm, "scputimes")] = tuple(want)
         for q in ("cpu_times", "per_cpu_times"):
